@@ -384,7 +384,37 @@ def inline_helpers(tree, modname, ref, rounds=3):
         total += n
         if not n:
             break
+    if total:
+        _drop_dead_helpers(tree, modname, known)
     return total
+
+
+def _drop_dead_helpers(tree, modname, known):
+    """helpers the reference does not know and nobody refers to any more
+    (every call was inlined) are removed, so that no rule analyses them as
+    if they were entry points of their own"""
+    holders = [(tree.body, modname)]
+    for st in tree.body:
+        if isinstance(st, ast.ClassDef):
+            holders.append((st.body, f"{modname}.{st.name}"))
+    for body, prefix in holders:
+        for f in [x for x in body if isinstance(x, FUNC)]:
+            q = f"{prefix}.{f.name}"
+            if q in known or f.name.startswith("__"):
+                continue
+            inside = {id(x) for x in ast.walk(f)}
+            refs = 0
+            for x in ast.walk(tree):
+                if id(x) in inside:
+                    continue
+                if (isinstance(x, ast.Attribute) and x.attr == f.name) or (
+                        isinstance(x, ast.Name) and x.id == f.name) or (
+                        isinstance(x, ast.Constant) and x.value == f.name):
+                    refs += 1
+            if refs == 0:
+                body.remove(f)
+                if not body:
+                    body.append(ast.Pass())
 
 
 def _functions_with_owner(tree):
@@ -568,6 +598,33 @@ def _inline_in_function(func, owner, classes, modfuncs, known):
         if kind == "assign":
             if not last_is_ret or body[-1].value is None:
                 return None
+            rv = body[-1].value
+            tgt = st.targets[0]
+            if isinstance(rv, ast.Name) and isinstance(
+                    tgt, (ast.Attribute, ast.Name)):
+                # `r = E; r.a = ...; return r` assigned to X: the object is
+                # built directly in X
+                defs = [i for i, b in enumerate(body[:-1])
+                        if isinstance(b, ast.Assign) and len(b.targets) == 1
+                        and isinstance(b.targets[0], ast.Name)
+                        and b.targets[0].id == rv.id]
+                others = [x for b in body[:-1] for x in ast.walk(b)
+                          if isinstance(x, ast.Name) and x.id == rv.id
+                          and isinstance(x.ctx, (ast.Store, ast.Del))]
+                if len(defs) == 1 and len(others) == 1:
+                    i = defs[0]
+                    body[i] = ast.copy_location(ast.Assign(
+                        targets=[_clone(tgt)], value=body[i].value), body[i])
+                    load = _clone(tgt)
+                    for x in ast.walk(load):
+                        if hasattr(x, "ctx"):
+                            x.ctx = ast.Load()
+                    t = _ParamSubst({rv.id: load})
+                    body = body[:i + 1] + [t.visit(b)
+                                           for b in body[i + 1:-1]]
+                    for b in body:
+                        ast.fix_missing_locations(b)
+                    return pro + body
             body = body[:-1] + [ast.copy_location(ast.Assign(
                 targets=st.targets, value=body[-1].value), st)]
             return pro + body
@@ -626,7 +683,7 @@ def inline_temporaries(func, known_locals):
     """substitute single-assignment locals the reference does not know"""
     from .normalize import local_order, _params
     n = 0
-    for _ in range(4):
+    for _ in range(40):
         cur = [x for x in local_order(func) if x not in known_locals
                and x not in _params(func)]
         if not cur:
@@ -711,11 +768,15 @@ def inline_temporaries(func, known_locals):
                 moved = False
                 for c in crossing:
                     for y in ast.walk(c):
-                        if isinstance(y, (ast.Call, ast.Await, ast.Yield,
+                        if isinstance(y, (ast.Await, ast.Yield,
                                           ast.YieldFrom, ast.AugAssign,
                                           ast.Delete)) or (
                                 isinstance(y, (ast.Attribute, ast.Subscript))
                                 and isinstance(y.ctx, (ast.Store, ast.Del))):
+                            moved = True
+                        # a value that calls something must not be moved
+                        # over another call; plain reads may
+                        if has_call and isinstance(y, ast.Call):
                             moved = True
                 if moved:
                     continue
@@ -732,6 +793,80 @@ def inline_temporaries(func, known_locals):
     if n:
         for s in func.body:
             ast.fix_missing_locations(s)
+    return n
+
+
+def inline_block_temporaries(func, known_locals):
+    """a local the reference does not know that is assigned in several
+    places, each assignment feeding only the statements that follow it in
+    the same block (`opcode = ...; emit(opcode)` in both branches of an
+    if): substituted per assignment"""
+    from .normalize import local_order, _params
+    n = 0
+    for name in [x for x in local_order(func) if x not in known_locals
+                 and x not in _params(func)]:
+        sites = []
+        ok = True
+        for node in ast.walk(func):
+            if isinstance(node, FUNC + (ast.Lambda,)) and node is not func:
+                if any(isinstance(y, ast.Name) and y.id == name
+                       for y in ast.walk(node)):
+                    ok = False
+            for fld in ("body", "orelse", "finalbody"):
+                lst = getattr(node, fld, None)
+                if not isinstance(lst, list):
+                    continue
+                for i, st in enumerate(lst):
+                    if isinstance(st, ast.Assign) and len(
+                            st.targets) == 1 and isinstance(
+                                st.targets[0], ast.Name) and \
+                            st.targets[0].id == name:
+                        sites.append((lst, i, st))
+        stores = [x for x in ast.walk(func) if isinstance(x, ast.Name)
+                  and x.id == name and isinstance(x.ctx, (ast.Store,
+                                                          ast.Del))]
+        if not ok or len(sites) < 2 or len(stores) != len(sites):
+            continue
+        loads = [x for x in ast.walk(func) if isinstance(x, ast.Name)
+                 and x.id == name and isinstance(x.ctx, ast.Load)]
+        cover = {}
+        for lst, i, st in sites:
+            v = st.value
+            if any(isinstance(y, (ast.Await, ast.Yield, ast.YieldFrom,
+                                  ast.NamedExpr)) for y in ast.walk(v)):
+                ok = False
+                break
+            for j in range(i + 1, len(lst)):
+                nxt = lst[j]
+                if isinstance(nxt, ast.Assign) and any(
+                        isinstance(t, ast.Name) and t.id == name
+                        for t in nxt.targets):
+                    break
+                hit = [l for l in loads if any(y is l for y in ast.walk(nxt))]
+                # only the directly following simple statement may use it
+                if hit and j != i + 1:
+                    ok = False
+                for l in hit:
+                    cover[id(l)] = st
+        if not ok or len(cover) != len(loads):
+            continue
+        for lst, i, st in sorted(sites, key=lambda s: -s[1]):
+            mine = [l for l in loads if cover[id(l)] is st]
+
+            class T(ast.NodeTransformer):
+                def visit_Name(self, node):
+                    if any(node is l for l in mine):
+                        return ast.copy_location(_clone(st.value), node)
+                    return node
+            if i + 1 < len(lst):
+                lst[i + 1] = T().visit(lst[i + 1])
+            del lst[i]
+            if not lst:
+                lst.append(ast.copy_location(ast.Pass(), st))
+            n += 1
+    if n:
+        for s_ in func.body:
+            ast.fix_missing_locations(s_)
     return n
 
 
